@@ -264,6 +264,26 @@ struct Node {
     outbox: Vec<ChangeV1>,
 }
 
+/// rows (ids) for which this node's crsql_changes holds two records under one
+/// (site_id, db_version, seq): a merge that resurrected the row stamped the sentinel it
+/// created with the position of the record that caused it
+async fn dup_seq_rows(n: &Node) -> Vec<i64> {
+    let conn = n.kit.agent.pool().read().await.unwrap();
+    let mut ids: Vec<i64> = conn
+        .prepare(r#"SELECT a.pk FROM crsql_changes a JOIN crsql_changes b ON a.site_id = b.site_id AND a.db_version = b.db_version AND a.seq = b.seq AND a.cid < b.cid"#)
+        .unwrap()
+        .query_map([], |r| {
+            let pk: Vec<u8> = r.get(0)?;
+            Ok(unpack_columns(&pk).ok().and_then(|v| v.first().and_then(|x| x.as_integer())).unwrap_or(-1))
+        })
+        .unwrap()
+        .map(|x| x.unwrap())
+        .collect();
+    ids.sort();
+    ids.dedup();
+    ids
+}
+
 async fn node_dump(n: &Node) -> (String, String, SyncStateV1) {
     let conn = n.kit.agent.pool().read().await.unwrap();
     let rows: Vec<String> = conn
@@ -332,6 +352,15 @@ async fn sync_pull(nodes: &mut [Node], n: usize, m: usize, lossy: bool) -> usize
         }
     }
     let total = answers.len();
+    if std::env::var("VERIF_DEBUG").is_ok() {
+        for c in &answers {
+            match &c.changeset {
+                Changeset::Full { version, changes, seqs, last_seq, .. } => eprintln!("DBG pull {n}<-{m} actor={} Full v{} seqs={}-{} last={} changes={:?}", c.actor_id, version.0, seqs.start().0, seqs.end().0, last_seq.0, changes.iter().map(|x| format!("{}:{:?}:{:?}:cv{}:cl{}:seq{}", x.table, x.cid, x.val, x.col_version, x.cl, x.seq.0)).collect::<Vec<_>>()),
+                Changeset::Empty { versions, .. } => eprintln!("DBG pull {n}<-{m} actor={} Empty {}-{}", c.actor_id, versions.start().0, versions.end().0),
+                _ => eprintln!("DBG pull {n}<-{m} other"),
+            }
+        }
+    }
     let batch: Vec<_> = answers
         .into_iter()
         .enumerate()
@@ -472,6 +501,14 @@ pub fn cluster(t: &mut Toks) -> String {
                 break;
             }
         }
+        if std::env::var("VERIF_DEBUG").is_ok() {
+            for (i, n) in nodes.iter().enumerate() {
+                let conn = n.kit.agent.pool().read().await.unwrap();
+                let mut st = conn.prepare(r#"SELECT pk, cid, val, col_version, db_version, seq, hex(site_id), cl FROM crsql_changes ORDER BY site_id, db_version, seq"#).unwrap();
+                let rows: Vec<String> = st.query_map([], |r| Ok(format!("cid={} val={:?} cv={} dbv={} seq={} site={} cl={}", r.get::<_, String>(1)?, r.get::<_, rusqlite::types::Value>(2)?, r.get::<_, i64>(3)?, r.get::<_, i64>(4)?, r.get::<_, i64>(5)?, &r.get::<_, String>(6)?[..6], r.get::<_, i64>(7)?))).unwrap().map(|x| x.unwrap()).collect();
+                for r in rows { eprintln!("DBG node{i} {r}"); }
+            }
+        }
         let mut outs = vec![format!("acked={} rounds={}", acked, used)];
         for n in nodes.iter() {
             let (tbl, clk, st) = node_dump(n).await;
@@ -490,7 +527,8 @@ pub fn cluster(t: &mut Toks) -> String {
                 hv.push(h.0);
             }
             hv.sort();
-            outs.push(format!("tbl={} clk={} heads={} need={} pneed={}", tbl, clk, hv.iter().map(|x| x.to_string()).collect::<Vec<_>>().join(","), need, pneed));
+            let dup = dup_seq_rows(n).await;
+            outs.push(format!("tbl={} clk={} heads={} need={} pneed={} dup={}", tbl, clk, hv.iter().map(|x| x.to_string()).collect::<Vec<_>>().join(","), need, pneed, dup.iter().map(|x| x.to_string()).collect::<Vec<_>>().join(",")));
         }
         outs.join(" # ")
     })
